@@ -37,7 +37,7 @@ class EngineCheck(Check):
     thorough_nodes = (2, 12)
     p_feat = 35
     quick_examples = 1200
-    thorough_examples = 3000
+    thorough_examples = 5000
     assumptions = (
         'CPython 3.12 BaseEventLoop._run_once (ready FIFO, timer heap) is the trusted scheduler core',
         'external completions are delivered at loop-iteration boundaries only',
@@ -575,7 +575,7 @@ class C05(EngineCheck):
     level = 'fault_enumeration'
     feats = BASE_FEATS + ('fatal',)
     p_feat = 45
-    quick_examples = 2000
+    quick_examples = 1300
     rule = ('case = program x set of failing nodes (from the variant; thorough additionally enumerates ALL subsets of '
             'reachable nodes failing for programs with <=7 reachable nodes) x 4 schedules; verdict, value and cause '
             'are compared with the reference: error is (identity) an exception raised by a required node in this run '
@@ -596,7 +596,7 @@ class C05(EngineCheck):
                 G.focus_shared_failure(draw, case['program'], case['variant'])
             return _sanitize(case)
 
-        return s()
+        return st.one_of(*([s()] * 12), shared_failure_templates(tier))
 
     def oracle(self, case, refres, obs):
         v = []
@@ -765,6 +765,59 @@ class C09(EngineCheck):
 
 
 # ------------------------------------------------------------------------------------------------ C10
+@st.composite
+def shared_failure_templates(draw, tier):
+    """directed shape named in the property: a node shared between the sub-pipeline of a (losing) candidate and a
+    consumer outside the one-of. The shared node fails or succeeds; a slow sibling is released at EVERY position of
+    the run (one delay schedule per position), so both orders 'candidate scope executes the shared node first' and
+    'main scope executes it first' are reached."""
+    def N(nid, params=(), mode='gated', **kw):
+        d = {'id': nid, 'params': [list(p) for p in params], 'mode': mode}
+        d.update(kw)
+        return d
+    ext = st.sampled_from(['gated', 'gated', 'thread', 'process'])
+    nodes = [N('n0', mode=draw(st.sampled_from(['coro', 'inline', 'gated'])))]
+
+    def add(params, **kw):
+        nid = f'n{len(nodes)}'
+        nodes.append(N(nid, params, mode=draw(ext), **kw))
+        return nid
+
+    gate = add([('k0', ['in', 'n0'])])
+    shared = add([('k0', ['in', gate])])
+    top = shared
+    for _ in range(draw(st.integers(0, 2))):
+        top = add([('k0', ['in', top])])
+    a1 = add([('k0', ['in', top])])
+    a2 = add([('k0', ['in', 'n0'])] if draw(st.booleans()) else [])
+    cands = [a1, a2] if draw(st.integers(0, 3)) else [a2, a1]
+    cons = add([('k0', ['oneof', cands])])
+    slow = add([('k0', ['in', 'n0'])])
+    after = slow
+    for _ in range(draw(st.integers(1, 2))):
+        after = add([('k0', ['in', after])])
+    reader_kind = draw(st.sampled_from(['plain', 'plain', 'case']))
+    if reader_kind == 'plain':
+        reader = add([('k0', ['in', shared])])
+        outs = [cons, after, reader]
+    else:
+        dec = add([('k0', ['in', 'n0'])])
+        other = add([('k0', ['in', 'n0'])])
+        reader = add([('k0', ['sw', 'sw_reader', dec, [['L0', shared], ['L1', other]]])])
+        outs = [cons, after, reader]
+    order = draw(st.permutations(outs))
+    out = add([(f'k{i}', ['in', x]) for i, x in enumerate(order)])
+    prog = {'nodes': nodes, 'output': out}
+    var = {'x': 0, 'nodes': {}}
+    if draw(st.integers(0, 3)):
+        var['nodes'][shared] = {'outcomes': [], 'tail': 'ErrA'}
+    if reader_kind == 'case':
+        var['nodes'][dec] = {'label': 'L0'}
+    held = draw(st.sampled_from([slow, slow, gate]))
+    scheds = [{'kind': 'delay', 'node': held, 'after': k} for k in range(0, 12)]
+    return {'program': prog, 'variant': var, 'scheds': scheds, 'template': 'shared-failure'}
+
+
 def oracle_oneof_order(o, program, refres):
     """a candidate node's body starts only after every earlier candidate has failed (checked where the reference
     attributes the earlier candidate's failure to node bodies only)"""
@@ -801,6 +854,7 @@ def oracle_oneof_order(o, program, refres):
 
 class C10(EngineCheck):
     id = 'C10'
+    quick_examples = 1000
     feats = ('oneof', 'fail', 'falsy', 'switch', 'retry', 'default', 'generic')
     p_feat = 50
     quick_nodes = (3, 9)
@@ -814,7 +868,8 @@ class C10(EngineCheck):
 
     def strategy(self, tier):
         kw = self.gen_kwargs(tier)
-        return G.cases(**kw).map(_sanitize).filter(lambda c: S.has_kind(c['program'], 'oneof'))
+        base = G.cases(**kw).map(_sanitize).filter(lambda c: S.has_kind(c['program'], 'oneof'))
+        return st.one_of(base, base, base, base, base, base, base, base, base, shared_failure_templates(tier))
 
     def oracle(self, case, refres, obs):
         v = []
